@@ -15,9 +15,13 @@ import FluteModel.Spec.Wire
          | ERR | PANIC
     pid <hex> <m>                                    parse_alc_pkt + parse_payload_id with an RS GF(2^m) oti of the given m
                                                                                     → ok <sbn>,<esi>,<sbl|-> | ERR | PANIC
+    ipid <hex>                                       parse_alc_pkt + get_fec_inline_payload_id (codec of the codepoint;
+                                                     RS GF(2^m): "not supported")   → ok <sbn>,<esi>,<sbl|-> | ERR | PANIC
     ntp <µs>                                         system_time_to_ntp             → ok <ntp> | PANIC
     untp <ntp>                                       ntp_to_system_time             → ok <µs> | ERR | PANIC
     rfc <hex>                                        independent RFC decoder (Spec) → ok <canonical fields> | ERR
+    session <family> <params...>                     oracle-only: one real Sender -> Receiver session of the generator families
+                                                     `rewidth` / `sender-range`, executed inside the op (watchdog) → ok
     rewidth <hex> <c> <s> <o> <h>                    independent RFC decoder + encoder (Spec): the same packet with its
                                                      LCT header re-serialised at other width flags → ok <hex> | ERR
   oti = <fec> <inst> <B> <E> <parity> <ss> <inband>,  ss = - | rs:<m>:<g> | rq:<z>:<n>:<al> | r:<z>:<n>:<al>
@@ -143,6 +147,10 @@ def step (args : List String) : String :=
           parsePayloadId d p { defaultOti p.lct.cp with ss := .rs m 1 })
       else "bad-op"
     | _, _ => "bad-op"
+  | ["ipid", h] =>
+    match unhex h with
+    | some d => showOut showPid ((parseAlcPkt d).bind fun p => getFecInlinePayloadId d p)
+    | none => "bad-op"
   | ["ntp", us] =>
     match nat? us with
     | some us => showRs toString (systemTimeToNtp us)
@@ -158,6 +166,11 @@ def step (args : List String) : String :=
       | some r => "ok " ++ hex r
       | none => "ERR"
     | _, _ => "bad-op"
+  | "session" :: _fam :: _ =>
+    -- oracle-only op: a whole real Sender -> Receiver session (families rewidth / sender-range) runs inside this op on
+    -- the implementation side so that the harness watchdog covers it; the session level is not modelled here
+    -- (engines recv / e2e own it): the expected observation is `ok` (a panic shows as `PANIC`, a hang as `.hang`)
+    "ok"
   | ["rfc", h] =>
     match unhex h with
     | some d => Flute.Spec.Wire.showDecode d
